@@ -11,9 +11,9 @@ from .. import absint
 from ..core import Ctx, PropSpec
 from ..rules import calls_in, cfg_of, dominating_conditions, is_call_to, kwarg, norm
 from ..srcmodel import AnalysisError, FuncInfo, Repo, dotted, src, walk_no_defs
-from .C16 import (BODY_CLS, CONV, DIFB, DICTS, FORMING, MARKING, PATCH_CLS, PROG, Access, Erase, _forward_check, accesses, analyse_names,
+from .C16 import (BODY_CLS, CONV, DIFB, FORMING, MARKING, PATCH_CLS, PROG, Access, Erase, _forward_check, accesses, analyse_names,
                   arg_desc, chain_path, fmt_loc, footprint, key_desc, local_defs, param_names, prefix_is_enforced, root_kind, single_def,
-                  storage_classes, unwrap)
+                  storage_classes)
 
 PROCESSING = 'kopf._core.reactor.processing'
 DIFFS = 'kopf._cogs.structs.diffs'
@@ -101,21 +101,29 @@ def default_field_path(repo: Repo, cls_qual: str, attr: str) -> Optional[tuple]:
     # which parameter feeds the assignment?  follow locals backwards (the last binding before the assignment)
     seen: set[str] = set()
     feeding: list[str] = []
+    order: dict[int, int] = {}          # program order of the constructor's statements (pre-order of the body)
+
+    def number(stmts: list) -> None:
+        for st in stmts:
+            order[id(st)] = len(order)
+            for fld in ('body', 'orelse', 'finalbody'):
+                number(getattr(st, fld, []) or [])
+    number(init.node.body)  # type: ignore[attr-defined]
 
     def feed(e: ast.AST, before: int, depth: int = 0) -> None:
         for n in ast.walk(e):
             if isinstance(n, ast.Name) and isinstance(n.ctx, ast.Load) and n.id not in seen:
                 seen.add(n.id)
-                binds = [s for s in walk_no_defs(init.node) if isinstance(s, ast.Assign) and s.lineno < before
+                binds = [s for s in walk_no_defs(init.node) if isinstance(s, ast.Assign) and order.get(id(s), -1) < before
                          and any(isinstance(t, ast.Name) and t.id == n.id for t in s.targets)]
                 if binds and depth < 4:
-                    last = max(binds, key=lambda s: s.lineno)
+                    last = max(binds, key=lambda s: order.get(id(s), -1))
                     seen.discard(n.id)
-                    feed(last.value, last.lineno, depth + 1)
+                    feed(last.value, order.get(id(last), -1), depth + 1)
                     seen.add(n.id)
                 elif n.id in defaults:
                     feeding.append(n.id)
-    feed(assigns[0].value, assigns[0].lineno)
+    feed(assigns[0].value, order.get(id(assigns[0]), len(order)))
     cands = [p for p in dict.fromkeys(feeding) if isinstance(defaults[p], ast.Constant) and isinstance(defaults[p].value, str) and '.' in defaults[p].value]
     if len(cands) != 1:
         return None
@@ -679,10 +687,11 @@ def check_detect(ctx: Ctx) -> None:
 
 # ====================================================================================== R4.6 the recursive diff
 def _keyset_of(f: FuncInfo, e: ast.AST, depth: int = 0) -> Optional[str]:
-    """'a' / 'b' if the expression is the key set of that parameter (frozenset(a.keys()), set(a), a.keys(), a local bound to it)."""
+    """'a' / 'b' (old / new side) if the expression is the key set of that parameter (frozenset(a.keys()), set(a), a.keys(), a local)."""
+    sides = dict(zip([x.arg for x in f.params()][:2], ('a', 'b')))
     if isinstance(e, ast.Name) and depth < 8:
-        if e.id in ('a', 'b') and not local_defs(f, e.id):
-            return e.id
+        if e.id in sides and not local_defs(f, e.id):
+            return sides[e.id]
         d = single_def(f, e.id)
         return _keyset_of(f, d[1], depth + 1) if d is not None and d[0] == 'assign' else None
     if isinstance(e, ast.Call) and dotted(e.func) in ('frozenset', 'set', 'list', 'tuple', 'sorted') and len(e.args) == 1:
@@ -706,8 +715,9 @@ def check_diff(ctx: Ctx) -> None:
     f = repo.fn(f'{DIFFS}.diff_iter')
     ctx.analysed(f)
     pnames = [a.arg for a in f.params()]
-    if pnames[:3] != ['a', 'b', 'path'] or 'scope' not in pnames:
-        raise AnalysisError(f'{f.loc()}: diff_iter(a, b, path, *, scope) expected')
+    if len(pnames) < 4 or 'scope' not in pnames or 'path' not in pnames:
+        raise AnalysisError(f'{f.loc()}: diff_iter(<old>, <new>, path, *, scope) expected')
+    PA, PB = pnames[0], pnames[1]
     # FULL = LEFT | RIGHT
     scope_cls = repo.cls(f'{DIFFS}.DiffScope')
     full = scope_cls.field_defaults.get('FULL')
@@ -723,7 +733,8 @@ def check_diff(ctx: Ctx) -> None:
     dg = repo.fn(f'{DIFFS}.diff')
     ctx.analysed(dg)
     inner = [c for c in calls_in(dg.node) if is_call_to(repo, dg, c, f'{DIFFS}.diff_iter')]
-    okf = len(inner) == 1 and [dotted(x) for x in inner[0].args[:2]] == ['a', 'b'] and dotted(kwarg(inner[0], 'scope') or ast.Constant(None)) == 'scope' \
+    dparams = [x.arg for x in dg.params()][:2]
+    okf = len(inner) == 1 and [dotted(x) for x in inner[0].args[:2]] == dparams and dotted(kwarg(inner[0], 'scope') or ast.Constant(None)) == 'scope' \
         and dotted(kwarg(inner[0], 'path', 2) or ast.Constant(None)) == 'path'
     ctx.ob('R4.6', 'diff() hands a, b, path and scope unchanged to diff_iter()', okf, loc=dg.loc(), construct=f'{dg.qualname}:flow:forward',
            detail=norm(inner[0]) if inner else 'no call')
@@ -770,8 +781,8 @@ def check_diff(ctx: Ctx) -> None:
         def none(e: ast.AST) -> bool:
             return isinstance(e, ast.Constant) and e.value is None
         a0, a1 = (call.args + [None, None])[:2]
-        want = {'b-a': none(a0) and a1 is not None and elem(a1, 'b'), 'a-b': a0 is not None and elem(a0, 'a') and none(a1),
-                'a&b': a0 is not None and a1 is not None and elem(a0, 'a') and elem(a1, 'b')}[kind]
+        want = {'b-a': none(a0) and a1 is not None and elem(a1, PB), 'a-b': a0 is not None and elem(a0, PA) and none(a1),
+                'a&b': a0 is not None and a1 is not None and elem(a0, PA) and elem(a1, PB)}[kind]
         pth = kwarg(call, 'path', 2)
         path_ok = isinstance(pth, ast.BinOp) and isinstance(pth.op, ast.Add) and dotted(pth.left) == 'path' and isinstance(pth.right, ast.Tuple) \
             and len(pth.right.elts) == 1 and dotted(pth.right.elts[0]) == var
@@ -810,7 +821,7 @@ def check_diff(ctx: Ctx) -> None:
     for op, label, shape in (('CHANGE', 'any other pair of unequal values (scalars, lists, type changes) yields CHANGE', 'default'),
                              ('ADD', 'an absent old value yields ADD', 'none-left'), ('REMOVE', 'an absent new value yields REMOVE', 'none-right')):
         ys = ops.get(op, [])
-        ok = len(ys) == 1 and [dotted(x) for x in ys[0].value.args[1:4]] == ['path', 'a', 'b']
+        ok = len(ys) == 1 and [dotted(x) for x in ys[0].value.args[1:4]] == ['path', PA, PB]
         why = '' if ok else f'{len(ys)} yields of DiffItem({op}, path, a, b)'
         if ok:
             cs = case_of(ys[0])
